@@ -1,4 +1,5 @@
 import MesaModel.Proofs.CellDyn
+import MesaModel.Proofs.CellCollection
 /-!
 # C06 — cell spaces: `agent.cell` and `cell.agents` mirror each other; capacity; emptiness views
 
@@ -255,6 +256,87 @@ theorem C06_histories_with_connection_edits {sp0 : Space} (hsp0 : SpaceOK sp0) (
   obtain ⟨h1, h2, h3, h4, h5⟩ := drun_inv hsp0 (inv_init sp0) ops
   exact ⟨h1, ⟨sp0, ops, hsp0, rfl⟩, h2, h3, h4, h5, fun _ _ _ => ⟨rfl, rfl⟩, fun l => drun_ops sp0 (init sp0) l⟩
 
+/-! ### the `CellCollection` API (`all_cells`, `empties`, neighbourhoods, selections) -/
+
+/-- The agent views of a collection mirror `agent.cell`: after any history, for every collection of distinct
+    cells — `all_cells`, `empties`, every (memoised) neighbourhood at every radius, every selection out of these —
+    `coll.agents` is the cells' agent lists *as they are now*, lists nobody twice, lists exactly the agents listed
+    by a cell of the collection, i.e. (for agents still in the model) exactly those whose `cell` is in the
+    collection; `coll[cell]` is that cell's list (KeyError outside the collection) and `cell in coll` is membership. -/
+theorem C06_collection_views {sp : Space} (hsp : SpaceOK sp) {s : State} (h : Reachable sp s) :
+    (∀ cells : Coll, cells.Nodup →
+      (collAgents s cells).Nodup ∧
+      (∀ a, a ∈ collAgents s cells ↔ ∃ c ∈ cells, a ∈ s.occ c) ∧
+      (∀ a, a ∈ s.registry → (a ∈ collAgents s cells ↔ ∃ c ∈ cells, s.cellOf a = some c)) ∧
+      (∀ c, collGet s cells c = (if c ∈ cells then some (s.occ c) else none)) ∧
+      (∀ c, collHas cells c = true ↔ c ∈ cells)) ∧
+    (sp.cells.Nodup ∧ (empties sp s).Nodup ∧
+      (∀ r ic c, (nbhd (nbOfConn sp.conn) r ic c).Nodup) ∧
+      (∀ f am (cells : Coll), cells.Nodup → (select f am cells).Nodup)) := by
+  have hi := reachable_inv hsp h
+  refine ⟨fun cells hnd => ⟨collAgents_nodup hi hnd, mem_collAgents s cells, fun a hr => ?_, fun c => rfl,
+    fun c => by simp [collHas]⟩, hsp.nodup, hsp.nodup.filter _, fun r ic c => nbhd_nodup _ r ic c,
+    fun f am cells hnd => (select_sublist f am cells).nodup hnd⟩
+  rw [mem_collAgents]
+  constructor
+  · rintro ⟨c, hc, hm⟩; exact ⟨c, hc, hi.mem_cell a c hm⟩
+  · rintro ⟨c, hc, hco⟩
+    rcases hi.cell_mem a c hco with h1 | ⟨_, h2⟩
+    · exact ⟨c, hc, h1⟩
+    · exact absurd hr h2
+
+/-- `select(filter_func, at_most)` on any collection, for every filter function and every bound: the result is
+    the matching cells in the collection's order, cut after the first `limit` of them, where `limit` is the int
+    itself (nothing for an int ≤ 0), `int(len * at_most)` for a float ≤ 1 and the float rounded up above 1; so it is a
+    sub-collection in the same order, every cell in it passes the filter, it never holds more than `limit` cells,
+    without a bound it holds *every* matching cell; without filter and bound it is the collection itself; and
+    `space.empties` is `all_cells.select(is_empty)`. -/
+theorem C06_select_spec (f : Option (Cid → Bool)) (am : AtMost) (cells : Coll) :
+    (select f am cells = match am.limit cells.length with
+      | none => cells.filter (selFilter f)
+      | some l => (cells.filter (selFilter f)).take l) ∧
+    (select f am cells).Sublist cells ∧
+    (∀ c ∈ select f am cells, c ∈ cells ∧ selFilter f c = true) ∧
+    (∀ l, am.limit cells.length = some l → (select f am cells).length ≤ l) ∧
+    (∀ c, c ∈ select f .inf cells ↔ c ∈ cells ∧ selFilter f c = true) ∧
+    (selectIsSelf f am = true → select f am cells = cells) ∧
+    (∀ n : Nat, AtMost.limit cells.length (.int n) = some n) ∧
+    (∀ a b, a ≤ b → AtMost.limit cells.length (.frac a b) = some (cells.length * a / b)) ∧
+    (∀ sp s, empties sp s = select (some (isEmpty s)) .inf sp.cells) := by
+  refine ⟨select_eq f am cells, select_sublist f am cells, fun c hc => select_mem_filter f am cells hc,
+    fun l hl => select_length_le f am cells hl, fun c => ?_, fun hs => ?_, fun n => by simp [AtMost.limit],
+    fun a b hab => by simp [AtMost.limit, hab], fun sp s => ?_⟩
+  · rw [select_eq]; simp [AtMost.limit, List.mem_filter]
+  · cases f <;> cases am <;> simp_all [selectIsSelf, select]
+  · rw [select_eq]; simp [AtMost.limit, empties, selFilter]
+
+/-- `select_random_cell` / `select_random_agent` on any collection (C01: which draws, over which population):
+    the population is the collection's cell list / its chained agent lists, in order; on an empty population
+    IndexError is raised and no draw is made; otherwise exactly one draw `d` is consumed — whatever else the
+    generator holds — and the element at position `d % len` is returned; a selected agent is listed by a cell
+    of the collection and (after any history) reports that cell. -/
+theorem C06_select_random_spec {sp : Space} (hsp : SpaceOK sp) {s : State} (h : Reachable sp s) (cells : Coll)
+    (draws : List Nat) :
+    (selectRandomCell cells draws = .err .index ↔ cells = []) ∧
+    (selectRandomAgent s cells draws = .err .index ↔ collAgents s cells = []) ∧
+    (∀ c pos used, selectRandomCell cells draws = .ok c pos used →
+      used = 1 ∧ cells[pos]? = some c ∧ c ∈ cells ∧ ∃ d ds, draws = d :: ds ∧ pos = d % cells.length) ∧
+    (∀ a pos used, selectRandomAgent s cells draws = .ok a pos used →
+      used = 1 ∧ (collAgents s cells)[pos]? = some a ∧
+      (∃ d ds, draws = d :: ds ∧ pos = d % (collAgents s cells).length) ∧
+      ∃ c ∈ cells, a ∈ s.occ c ∧ s.cellOf a = some c) ∧
+    (∀ d ds, cells ≠ [] → ∃ c, selectRandomCell cells (d :: ds) = .ok c (d % cells.length) 1) ∧
+    (∀ d ds, collAgents s cells ≠ [] →
+      ∃ a, selectRandomAgent s cells (d :: ds) = .ok a (d % (collAgents s cells).length) 1) := by
+  have hi := reachable_inv hsp h
+  refine ⟨pick_err_index, pick_err_index, fun c pos used hp => pick_ok hp, fun a pos used hp => ?_,
+    fun d ds hne => ?_, fun d ds hne => ?_⟩
+  · obtain ⟨h1, h2, h3, h4⟩ := pick_ok hp
+    obtain ⟨c, hc, hm⟩ := (mem_collAgents s cells a).mp h3
+    exact ⟨h1, h2, h4, c, hc, hm, hi.mem_cell a c hm⟩
+  · obtain ⟨x, _, hx⟩ := pick_cons hne d ds; exact ⟨x, hx⟩
+  · obtain ⟨x, _, hx⟩ := pick_cons hne d ds; exact ⟨x, hx⟩
+
 /-! ### non-vacuity -/
 
 -- a 2×2 Moore torus with capacity 1: place, rejected move into a full cell (S11 witness: nothing changes),
@@ -281,5 +363,16 @@ example : (step sp1 (run sp1 (init sp1) [.new .cell, .setCell 0 (some [0, 0])]) 
 example : (dstep (drun sp1 (init sp1) dops1).1 (drun sp1 (init sp1) dops1).2 (.connect [0, 0] [3, 3] none)).2 = .err .key := by decide
 example : ((drun sp1 (init sp1) (dops1 ++ [.disconnect [0, 0] [2, 2]])).1.conn [0, 0]).map (·.1) = [[0, 1], [1, 0]] := by decide
 example : (editSp (vorSpace 3 [(0, 1, 2)] none) (.connect [0] [1] none)).2 = .err .type := by decide
+
+-- collections on the 2×2 torus of `ops0` (agents 0 at (0,0), 1 at (1,1), capacity 1)
+private def s0 : State := run sp0 (init sp0) ops0
+example : Reachable sp0 s0 := reachable_of_run (gridSpace_ok _ _ _ _ (by simp)) ops0
+example : collAgents s0 sp0.cells = [0, 1] ∧ empties sp0 s0 = [[0, 1], [1, 0]] := by decide
+example : select (some (isFull sp0 s0)) (.frac 1 2) sp0.cells = [[0, 0], [1, 1]] ∧
+    select (some (isFull sp0 s0)) (.frac 1 4) sp0.cells = [[0, 0]] ∧ select none (.int (-1)) sp0.cells = [] ∧
+    select none (.frac 5 2) sp0.cells = [[0, 0], [0, 1], [1, 0]] ∧ selectIsSelf none .inf = true := by decide
+example : selectRandomCell (empties sp0 s0) [7, 3] = .ok [1, 0] 1 1 ∧ selectRandomAgent s0 sp0.cells [6] = .ok 0 0 1 ∧
+    selectRandomAgent s0 (empties sp0 s0) [6] = .err .index ∧ selectRandomCell sp0.cells [] = .err .script := by decide
+example : selectRandomAgent s0 (nbhd (nbOfConn sp0.conn) 1 false [0, 0]) [5] = .ok 1 0 1 := by decide
 
 end Mesa.Cells
